@@ -39,7 +39,30 @@ def max_matching(adj, nv):
     return go(0, 0)
 
 
+def max_matching_kuhn(adjlists, nv):
+    """Kuhn's augmenting-path algorithm (for inputs too large for the bitmask DP, e.g. fixtures)."""
+    import sys
+    sys.setrecursionlimit(max(10000, sys.getrecursionlimit()))
+    match_v = [-1] * nv
+
+    def try_u(u, seen):
+        for v in adjlists[u]:
+            if not seen[v]:
+                seen[v] = True
+                if match_v[v] < 0 or try_u(match_v[v], seen):
+                    match_v[v] = u
+                    return True
+        return False
+    size = 0
+    for u in range(len(adjlists)):
+        if try_u(u, [False] * nv):
+            size += 1
+    return size
+
+
 def max_matching_pred(n_ref, n_est, pred):
+    if n_ref > 8 or n_est > 12:
+        return max_matching_kuhn([[j for j in range(n_est) if pred(i, j)] for i in range(n_ref)], n_est)
     adj = []
     for i in range(n_ref):
         m = 0
